@@ -609,7 +609,7 @@ class operators:
     Spoiler = virtual_operator(_operators.Spoiler, [], [], _std)
     PD = virtual_operator(_operators.PD, ["pd"], [], ["reset"] + _std)
     Reset = virtual_operator(_operators.Reset, [], [], _std)
-    System = virtual_operator(_operators.System, [], [], _std + [None])
+    System = virtual_operator(_operators.System, [], [], _std + [...])
     Null = virtual_operator(_operators.EmptyOperator, [], [], _std)
 
     # default operators
